@@ -8,7 +8,14 @@ out=/verif/seeded/$name; mkdir -p "$out"
 cd "$wt" || exit 9
 git checkout -q -- . ; git clean -fdq -e _seed
 git apply _seed/patch.diff || { echo "patch does not apply"; exit 9; }
-suite=$(go test -vet=off -count=1 ./... 2>&1 | grep -E '^(FAIL|---|ok|panic)' | grep -v '^ok' | grep -v 'pkg/cgroup' | grep -v TestCgroupAll | grep -v '^FAIL$' | tr '\n' ';')
+suite_once() { go test -vet=off -count=1 "$@" 2>&1 | grep -E '^(FAIL|---|ok|panic)' | grep -v '^ok' | grep -v 'pkg/cgroup' | grep -v TestCgroupAll | grep -v '^FAIL$' | tr '\n' ';'; }
+suite=$(suite_once ./...)
+# a failure seen under machine load (20 agents at once) is re-run alone, twice; only a failure that stays is recorded
+if [ -n "$suite" ]; then
+  pk=$(echo "$suite" | tr ';' '\n' | sed -n 's/^FAIL[ \t]*\(github.com[^ \t]*\).*/\1/p' | sort -u | tr '\n' ' ')
+  sleep 5; s2=$(suite_once $pk); [ -n "$s2" ] && { sleep 10; s2=$(suite_once $pk); }
+  if [ -z "$s2" ]; then suite=""; flaky="first pass under load: $pk failed, passed when re-run alone"; else suite="$s2"; fi
+fi
 mkdir -p "$dest"; cp _seed/demo/*_test.go "$dest"/ 2>/dev/null
 for f in _seed/demo/*.c _seed/demo/*.go; do case "$f" in *_test.go) ;; *) [ -e "$f" ] && cp "$f" "$dest"/ ;; esac; done
 with=""; for i in 1 2 3; do if go test -vet=off -count=1 -run "$rx" ./"$dest" >/tmp/seed_with.$$ 2>&1; then with="$with pass"; else with="$with FAIL"; fi; done
@@ -17,11 +24,11 @@ without=""; for i in 1 2 3; do if go test -vet=off -count=1 -run "$rx" ./"$dest"
 echo "suite-with-change (non-ok lines, cgroup excluded): [$suite]"; echo "demo with change:$with"; echo "demo without change:$without"
 tail -5 /tmp/seed_without.$$
 cp _seed/patch.diff "$out"/; rm -rf "$out/demo"; cp -r _seed/demo "$out"/; cp _seed/README.md "$out"/ 2>/dev/null
-python3 - "$name" "$prop" "$needs" "$suite" "$with" "$without" "$dest" "$rx" > "$out/meta.json" <<'PY'
+python3 - "$name" "$prop" "$needs" "$suite" "$with" "$without" "$dest" "$rx" "${flaky:-}" > "$out/meta.json" <<'PY'
 import json,sys
-n,prop,needs,suite,w,wo,dest,rx=sys.argv[1:9]
+n,prop,needs,suite,w,wo,dest,rx,flaky=sys.argv[1:10]
 print(json.dumps({"seed":n,"property":prop,"needs_to_manifest":needs,"origin":"independent sub-agent given only the property text and a scratch worktree",
- "confirmed":{"existing_suite_with_change_non_ok":suite or "none (all ok; pkg/cgroup TestCgroupAll is the baseline always_fail)","demo_with_change_x3":w.split(),"demo_without_change_x3":wo.split(),
+ "confirmed":{"existing_suite_with_change_non_ok":suite or ("none (all ok; pkg/cgroup TestCgroupAll is the baseline always_fail)"+(("; "+flaky) if flaky else "")),"demo_with_change_x3":w.split(),"demo_without_change_x3":wo.split(),
  "how":"tools/collect_seed.sh: demo copied to %s, go test -vet=off -count=1 -run '%s'"%(dest,rx)}},indent=1))
 PY
 rm -f /tmp/seed_with.$$ /tmp/seed_without.$$
